@@ -189,6 +189,26 @@ func runCCRound(c *engine.Ctx, rd ccRound) {
 			n := world.MustNode(false, "")
 			req, _ := n.FetchRequest()
 			cl.node, cl.fetchReq = n, req
+		case "malformed":
+			// a peer whose ALPN entries break off in the middle: a well-formed chunk followed by one
+			// with an unusable header, under either prefix; it is rejected, and that must be all
+			n := world.MustNode(false, "")
+			req, _ := n.FetchRequest()
+			cl.node = n
+			good := world.FetchProtos(req)
+			pfx := nodeenrollment.FetchNodeCredsNextProtoV1Prefix
+			if i%2 == 1 {
+				nonce := world.RandBytes(32)
+				good = world.AuthProtos(&types.GenerateServerCertificatesRequest{CertificatePublicKeyPkix: n.K.Pkix, Nonce: nonce, NonceSignature: ed25519.Sign(n.K.Priv, nonce), ClientState: world.RandBytes(400)})
+				pfx = nodeenrollment.AuthenticateNodeNextProtoV1Prefix
+			}
+			bad := []string{pfx + "zz-AAAA", pfx + "-", pfx + "1x-BBBB"}[rng.Intn(3)]
+			protos := append(append([]string{}, good[:1+rng.Intn(len(good))]...), bad)
+			now := time.Now()
+			self := world.MintSelfSigned(n.K, world.LeafSpec{SubjectKeyID: n.K.Pkix, DNSNames: []string{nodeenrollment.CommonDnsName}, NotBefore: now.Add(-5 * time.Minute), NotAfter: now.Add(5 * time.Minute), EKU: []x509.ExtKeyUsage{x509.ExtKeyUsageClientAuth}})
+			cert := &tls.Certificate{Certificate: [][]byte{self}, PrivateKey: n.K.Priv}
+			cl.cfg = &tls.Config{NextProtos: protos, InsecureSkipVerify: true, MinVersion: tls.VersionTLS13,
+				GetClientCertificate: func(*tls.CertificateRequestInfo) (*tls.Certificate, error) { return cert, nil }}
 		case "token":
 			cl.state = uniqueState("token", i)
 			id, tok, err := registration.CreateServerLedActivationToken(s.Ctx, s.Store, &types.ServerLedRegistrationRequest{}, s.Opts(nodeenrollment.WithState(cl.state))...)
@@ -216,7 +236,7 @@ func runCCRound(c *engine.Ctx, rd ccRound) {
 	// rendezvous inside the configurable functions
 	k := len(clients)
 	bFetch := newRendezvous(countKinds(rd.Clients, "fetch-authorized", "fetch-unauthorized", "token", "wrapper"))
-	bGen := newRendezvous(k)
+	bGen := newRendezvous(k - countKindsExact(rd.Clients, "malformed"))
 	var inFetch, inGen atomic.Int64
 	fetchFn := func(ctx context.Context, st nodeenrollment.Storage, req *types.FetchNodeCredentialsRequest, opt ...nodeenrollment.Option) (*types.FetchNodeCredentialsResponse, error) {
 		inFetch.Add(1)
@@ -332,6 +352,11 @@ func runCCRound(c *engine.Ctx, rd ccRound) {
 				fail("outcome", "client with a forged nonce signature was authenticated under concurrency")
 			}
 			r.Count("forged_rejected", 1)
+		case "malformed":
+			if rec.Returned {
+				fail("outcome", "a handshake with a broken-off ALPN request returned a connection")
+			}
+			r.Count("malformed_rejected", 1)
 		case "fetch-unauthorized":
 			if rec.Returned {
 				fail("outcome", "fetch handshake returned a connection")
@@ -400,6 +425,16 @@ func runCCRound(c *engine.Ctx, rd ccRound) {
 	}
 }
 
+func countKindsExact(list []string, kind string) int {
+	n := 0
+	for _, l := range list {
+		if l == kind {
+			n++
+		}
+	}
+	return n
+}
+
 func countKinds(list []string, kinds ...string) int {
 	n := 0
 	for _, l := range list {
@@ -439,7 +474,7 @@ func runConcurrent(c *engine.Ctx) engine.Result {
 		return res
 	}
 	rng := c.Rng("concurrent")
-	kinds := []string{"auth", "auth", "forged", "fetch-authorized", "fetch-unauthorized", "token", "token", "wrapper"}
+	kinds := []string{"auth", "auth", "forged", "fetch-authorized", "fetch-unauthorized", "token", "token", "wrapper", "malformed", "malformed"}
 	rounds := c.Pick(160, 2500)
 	var list []ccRound
 	for i := 0; i < rounds; i++ {
@@ -463,6 +498,9 @@ func runConcurrent(c *engine.Ctx) engine.Result {
 		case 4:
 			rd.Clients = []string{"token", "wrapper", "auth", "fetch-authorized", "token", "wrapper"}
 			rd.Acceptors = 6
+		case 5:
+			rd.Clients = []string{"malformed", "auth", "malformed", "auth", "malformed", "token", "malformed", "fetch-authorized"}
+			rd.Acceptors = 2 + rng.Intn(3) // few acceptors: rejected and honest handshakes follow each other on the same goroutines
 		}
 		list = append(list, rd)
 	}
@@ -475,6 +513,7 @@ func runConcurrent(c *engine.Ctx) engine.Result {
 	r.Require("enrollments_checked:token", 10)
 	r.Require("enrollments_checked:wrapper", 5)
 	r.Require("forged_rejected", 5)
+	r.Require("malformed_rejected", 20)
 	r.Require("rounds_with_state_in_listener_options", int64(rounds/5))
 	return res
 }
